@@ -32,6 +32,7 @@ type directProg struct {
 }
 
 type modelProp struct {
+	volume  []volScenario // round 8: volume / history scenarios (modelprops_r8.go)
 	direct  []directProg
 	id      string
 	prof    gen.Profile
@@ -104,10 +105,13 @@ func registerModelProp(mp *modelProp) {
 					"the reference model (internal/refmodel) is the executable reading of the statement; readings the statement leaves open are enumerated as variants and any of them is accepted",
 					"programs leaving the determined domain (model raises Unspec) are excluded, not judged",
 				},
-				Phases: []fw.Phase{{Name: "programs", Cases: n, Chunk: 250, TimeoutS: 900}},
+				Phases: append([]fw.Phase{{Name: "programs", Cases: n, Chunk: 250, TimeoutS: 900}}, r8Phases(mp, tier)...),
 			}
 		},
 		Run: func(c *wk.Case) {
+			if r8Run(c, mp) {
+				return
+			}
 			if c.Index >= len(mp.fixed) && c.Index < len(mp.fixed)+len(mp.direct) {
 				runDirect(c, mp, mp.direct[c.Index-len(mp.fixed)])
 				return
@@ -283,6 +287,7 @@ func c09Direct() []directProg {
 func init() {
 	registerModelProp(&modelProp{
 		id: "C07", prof: gen.ProfControl, nQuick: 30000, nThor: 3000000,
+		volume: []volScenario{{"hot-sites-0", c07HotSites(0)}, {"hot-sites-1", c07HotSites(1)}, {"hot-sites-2", c07HotSites(2)}, {"hot-sites-3", c07HotSites(3)}},
 		fixed: [][]gen.Stmt{{
 			&gen.ExprStmt{X: &gen.FuncLit{Name: "f0", Body: []gen.Stmt{&gen.Return{Exprs: []gen.Expr{&gen.Call{Fn: "hv", Args: []gen.Expr{lit(100)}}}}}}},
 			&gen.ExprStmt{X: &gen.Call{Fn: "f0", Spread: true, Args: []gen.Expr{gen.P(1), &gen.ListLit{Elems: []gen.Expr{gen.P(2)}}}}},
@@ -295,19 +300,22 @@ func init() {
 	exits := []string{"break", "continue", "return", "throw", "runtime-error"}
 	registerModelProp(&modelProp{
 		id: "C04", prof: gen.ProfScope, fixed: tryControlFixed(),
+		volume:  []volScenario{{"bigscope-a", c04BigScope}, {"bigscope-b", c04BigScope}, {"bigscope-c", c04BigScope}, {"bigscope-d", c04BigScope}, {"closures", c04Closures}, {"recursion", c04Recursion}, {"fresh-invocation", c04FreshInvocation}},
 		rule:    "PRNG-generated terminating programs (scope profile: a 4-name pool assigned, var-declared and read back at every nesting level of if/else-if/else, the loop forms, for-in, switch, try/catch/finally, module, function literals, closures, recursion; every block left by every exit path) run on the real interpreter; the recorded read-back trace, result and error status must be admitted by a variant of the reference model. Non-trivial = the program contains at least one shadowing declaration and at least one non-normal exit (break/continue/return/throw/runtime error); distinct = distinct source text.",
 		nontriv: func(f map[string]int) bool { return hasAny(f, "shadow") && hasAny(f, exits...) },
 	})
 	registerModelProp(&modelProp{
 		id: "C08", prof: gen.ProfControl, fixed: tryControlFixed(), direct: c08Direct(),
-		rule: "PRNG-generated terminating programs (control profile: nested if/else-if/else, switch with multi-expression cases and default in any position, the three loop forms with probing conditions and post expressions, for-in over lists and maps, break/continue/return at every position, conditions from every truthiness class) run on the real interpreter; the recorded probe trace, result and error status must be admitted by a variant of the reference model. Non-trivial = contains a loop or switch and at least one of break/continue/return; distinct = distinct source text.",
+		volume: []volScenario{{"cond-stream-a", c08CondStream}, {"cond-stream-b", c08CondStream}, {"long-loops", c08LongLoops}, {"wide-branches", c08WideBranches}},
+		rule:   "PRNG-generated terminating programs (control profile: nested if/else-if/else, switch with multi-expression cases and default in any position, the three loop forms with probing conditions and post expressions, for-in over lists and maps, break/continue/return at every position, conditions from every truthiness class) run on the real interpreter; the recorded probe trace, result and error status must be admitted by a variant of the reference model. Non-trivial = contains a loop or switch and at least one of break/continue/return; distinct = distinct source text.",
 		nontriv: func(f map[string]int) bool {
 			return hasAny(f, "loop-forever", "loop-cond", "loop-cfor", "loop-forin-list", "loop-forin-map", "switch") && hasAny(f, "break", "continue", "return")
 		},
 	})
 	registerModelProp(&modelProp{
 		id: "C09", prof: gen.ProfError, fixed: tryControlFixed(), direct: c09Direct(),
-		rule: "PRNG-generated terminating programs (error profile: try/catch/finally nested in functions, 0-5 defer statements per invocation at top level, in branches and loops, deferred host functions, closures, variadic/spread callees, failing and throwing deferred callees, throw / runtime errors / return at every point) run on the real interpreter; the recorded probe trace (including every deferred call with the arguments it received), result and error status must be admitted by a variant of the reference model. Non-trivial = contains a try or a defer and at least one throw/runtime error/return; distinct = distinct source text.",
+		volume: []volScenario{{"deep-defers-a", c09DeepDefers}, {"deep-defers-b", c09DeepDefers}, {"deep-defers-c", c09DeepDefers}, {"deep-defers-d", c09DeepDefers}, {"many-defers", c09ManyDefers}, {"try-stream", c09TryStream}},
+		rule:   "PRNG-generated terminating programs (error profile: try/catch/finally nested in functions, 0-5 defer statements per invocation at top level, in branches and loops, deferred host functions, closures, variadic/spread callees, failing and throwing deferred callees, throw / runtime errors / return at every point) run on the real interpreter; the recorded probe trace (including every deferred call with the arguments it received), result and error status must be admitted by a variant of the reference model. Non-trivial = contains a try or a defer and at least one throw/runtime error/return; distinct = distinct source text.",
 		nontriv: func(f map[string]int) bool {
 			return hasAny(f, "try", "defer") && hasAny(f, "throw", "runtime-error", "return")
 		},
